@@ -184,6 +184,10 @@ def scn_lex():
         '""', '"a\\"b"', '"a\\\\"', '"a\nb"', '"\xe9"', 'RAW:"a',
         "text:\nabc\n.", "TEXT:\nabc\n.", "text:\n..x\n.", "text: #c\nabc\n.", "RAW:text:\nabc", "RAW:text:x\nabc\n.",
         "RAW:# c\n", "RAW:/* c */", "RAW:\x0c", "RAW:\x0b", "RAW:\t", "RAW:\r", "RAW:\ufeff", "RAW:/* unterminated", "RAW:&", "RAW:\xe9", "RAW::", "RAW:a-b",
+        # octets that are not UTF-8, inside a string and as junk (U+DCxx stands for the raw octet xx): an encoded surrogate, an overlong
+        # form, a code point above U+10FFFF, a lone lead octet, lone continuation octets
+        '"\udced\udca0\udc80"', '"\udcc0\udc80"', '"\udcf4\udc90\udc80\udc80"', '"a\udce9"', '"\udc80"', "text:\n\udced\udcbf\udcbf\n.",
+        "RAW:\udc80", "RAW:\udcbfz", "RAW:\udca9\udca9",
     ]
     sigma = ["redirect", "keep", "if", "size", ":over", "true", "STR", ";", "{", "}"] + raws
     return dict(name="lex", prefix=(), sigma=sigma)
